@@ -754,6 +754,244 @@ Proof.
     + intros Q. rewrite LO in Q. lia.
     + intros Hb Hl. specialize (PF2 Hb Hl). fold n in PF2. lia.
   - cbn [recs]. rewrite RO. exists (Z.to_nat (sample - (lo F n - 1))). split.
-    + unfold F'. rewrite EF at 2. rewrite RL. apply expand_last_zero; [|lia]. rewrite <- RL, <- EF. exact IF.
+    + assert (EF2 : F = A0 ++ [(lo F n - 1, zero)]) by (rewrite <- RL; exact EF).
+      assert (IX : inc (-1) (A0 ++ [(lo F n - 1, zero)])) by (rewrite <- EF2; exact IF).
+      assert (X : sie_expand F = sie_expand (A0 ++ [(lo F n - 1, zero)])) by (rewrite <- EF2; reflexivity).
+      rewrite X. unfold F'. apply expand_last_zero; [exact IX | lia].
     + pose proof (top_length F IF). fold n in H. lia.
+Qed.
+
+(* the gap is covered by a new zero record *)
+Lemma pad_new zero F r2 sample :
+  inc (-1) F -> before F (length F) r2 -> lo F (length F) - 1 < sample -> 0 < sample ->
+  ((length F = 0)%nat -> fst (cd r2) = -1) ->
+  let st3 := mkSie (rec_overwrite zero (recs r2) (fpos r2) [(sample, zero)]) (fpos r2 + 1) (cr r2 + 1) (cp r2) sample
+                   (sample, zero) (cd r2) true false (filepos r2) in
+  gstate (set_pos st3 sample) /\
+  exists m, sie_expand (recs st3) = sie_expand F ++ repeat zero m /\ (length (sie_expand F) + m <= Z.to_nat sample + 1)%nat.
+Proof.
+  intros IF (A & _ & Cf & Cr & Cs & Cd) Htop Hs H0.
+  set (n := length F) in *. set (F' := F ++ [(sample, zero)]).
+  assert (RO : rec_overwrite zero (recs r2) (fpos r2) [(sample, zero)] = F').
+  { rewrite A, Cf. unfold rec_overwrite, n. rewrite Nat2Z.id. rewrite firstn_all, Nat.sub_diag.
+    cbn [repeat app length]. rewrite skipn_all2 by lia. reflexivity. }
+  assert (LT : lend (-1) F = lo F n - 1).
+  { pose proof (lend_firstn F n IF ltac:(unfold n; lia)) as L. unfold n in L at 1. now rewrite firstn_all in L. }
+  assert (IF' : inc (-1) F') by (unfold F'; apply inc_app; split; [auto | rewrite LT; cbn; lia]).
+  assert (LF' : length F' = S n) by (unfold F'; rewrite app_length; cbn; fold n; lia).
+  assert (LO : lo F' n = lo F n) by (unfold F'; apply lo_app1; unfold n; lia).
+  cbv zeta. split.
+  - unfold gstate, set_pos. cbn [recs cr fpos cd cs cp have_l bof cl]. rewrite RO. split; [exact IF'|]. right.
+    exists n. split; [|split; [|split; [|split]]].
+    + unfold at_rec. cbn [recs cr fpos cd cs]. rewrite ?RO. repeat split; auto; try lia.
+      * unfold F', rec_at. rewrite app_nth2 by (fold n; lia). fold n. rewrite Nat.sub_diag. reflexivity.
+      * unfold endof, F', rec_at. rewrite app_nth2 by (fold n; lia). fold n. rewrite Nat.sub_diag. reflexivity.
+    + rewrite LO. lia.
+    + intros _. rewrite LO. split.
+      * destruct n as [|n'] eqn:En; [cbn [lo]; rewrite (H0 eq_refl); lia|].
+        rewrite (Cd ltac:(lia)). replace (S n' - 1)%nat with n' by lia. cbn [lo]. reflexivity.
+      * intros Hn. rewrite (Cd Hn). unfold F'. rewrite rec_at_app1 by (fold n; lia). reflexivity.
+    + intros Q. split; [intros _; reflexivity|]. intros Hn0. exfalso. rewrite LO in Q.
+      assert (L0 : lo F n = 0) by (rewrite Hn0; reflexivity). lia.
+    + intros _ Hl. discriminate.
+  - cbn [recs]. rewrite RO. exists (Z.to_nat (sample - (lo F n - 1))). split.
+    + unfold F', sie_expand. rewrite expand_snoc, LT. reflexivity.
+    + pose proof (top_length F IF). fold n in H. lia.
+Qed.
+
+Lemma endof_nonneg F j : inc (-1) F -> (j < length F)%nat -> 0 <= endof F j.
+Proof. intros I H. destruct (inc_ends (-1) F I j H). lia. Qed.
+
+Lemma endof_mono F i j : inc (-1) F -> (i <= j)%nat -> (j < length F)%nat -> endof F i <= endof F j.
+Proof.
+  intros I Hij Hj. destruct (Nat.eq_dec i j) as [->|N]; [lia|].
+  destruct (inc_ends (-1) F I j Hj) as [_ B]. specialize (B i ltac:(lia)). lia.
+Qed.
+
+(* the body of _GD_SampIndSeek after the optional rewind *)
+Definition seek_body (zero : sample) (sample : Z) (st1 : sie) : sie :=
+  let st2 := advance_until (S (length (recs st1))) sample st1 in
+  let st3 :=
+    if true && (cs st2 <? sample) && (0 <? sample) then
+      if sample_eqb (snd (cd st2)) zero && (0 <? fpos st2) then
+        let d' := (sample, snd (cd st2)) in
+        mkSie (rec_overwrite zero (recs st2) (fpos st2 - 1) [d']) (fpos st2) (cr st2) (cp st2) sample d'
+              (cl st2) (have_l st2) (bof st2) (filepos st2)
+      else
+        let d' := (sample, zero) in
+        mkSie (rec_overwrite zero (recs st2) (fpos st2) [d']) (fpos st2 + 1) (cr st2 + 1) (cp st2) sample d'
+              (cd st2) true false (filepos st2)
+    else st2 in
+  set_pos st3 sample.
+
+Lemma pad_flags_of_flags F r : (1 <= length F)%nat -> flags_ok F (length F - 1) r -> pad_flags F r.
+Proof.
+  intros Hn [F1 F2]. split.
+  - intros HL. destruct (Nat.eq_dec (length F - 1) 0) as [Z0|NZ]; [destruct (F2 Z0); congruence|].
+    destruct (F1 ltac:(lia)) as (_ & U & _). split; [lia|]. rewrite U. f_equal. lia.
+  - intros Hb _. destruct (Nat.eq_dec (length F - 1) 0) as [Z0|NZ]; [destruct (F2 Z0); congruence | lia].
+Qed.
+
+Lemma seek_from zero sample F k st1 :
+  inc (-1) F -> before F k st1 -> cs st1 < sample -> 0 <= sample ->
+  (k = length F -> ((1 <= length F)%nat -> pad_flags F st1) /\ ((length F = 0)%nat -> fst (cd st1) = -1)) ->
+  let r := seek_body zero sample st1 in
+  gstate r /\ cp r = sample /\
+  exists m, sie_expand (recs r) = sie_expand F ++ repeat zero m /\
+            (m = 0%nat \/ (length (sie_expand F) + m <= Z.to_nat sample + 1)%nat).
+Proof.
+  intros IF B Hcs Hs SC. pose proof B as (A & Bk & _).
+  unfold seek_body. rewrite A.
+  destruct (advance_until_spec F sample IF (S (length F)) k st1 B ltac:(lia)) as [[X _]|[_ [FOUND|EOF]]]; [lia| |].
+  - (* found the record that holds the sample *)
+    destruct FOUND as (j & Hj & AT & Hp & H1 & H2 & FL & _).
+    set (st2 := advance_until (S (length F)) sample st1) in *.
+    pose proof AT as (A2 & _ & _ & _ & _ & G2).
+    replace (cs st2 <? sample) with false by (symmetry; apply Z.ltb_ge; lia). cbn [andb].
+    split; [eapply found_gstate; eauto|]. split; [reflexivity|].
+    exists 0%nat. cbn [set_pos recs repeat]. rewrite A2, app_nil_r. auto.
+  - destruct EOF as (Htop & B2 & Hcp & _ & FLG).
+    set (st2 := advance_until (S (length F)) sample st1) in *.
+    pose proof B2 as (A2 & _ & Cf2 & Cr2 & Cs2 & Cd2).
+    replace (cs st2 <? sample) with true by (symmetry; apply Z.ltb_lt; lia). cbn [andb].
+    destruct (Z.ltb_spec 0 sample) as [S0|S0].
+    + (* pad *)
+      assert (PFL : (1 <= length F)%nat -> pad_flags F st2).
+      { intros Hn. destruct FLG as [[K1 K2]|(K1 & K2 & K3 & K4 & K5)]; [now apply pad_flags_of_flags|].
+        destruct (SC K1) as [SC1 _]. specialize (SC1 Hn). destruct SC1 as [P1 P2].
+        split; [rewrite K2, K4; exact P1 | rewrite K2, K3; exact P2]. }
+      assert (CD0 : (length F = 0)%nat -> fst (cd st2) = -1).
+      { intros Hn. destruct FLG as [[K1 K2]|(K1 & K2 & K3 & K4 & K5)]; [lia|]. rewrite K5. now apply (SC K1). }
+      destruct (sample_eqb (snd (cd st2)) zero && (0 <? fpos st2)) eqn:T.
+      * apply andb_prop in T as [T1 T2]. apply sample_eqb_true in T1. apply Z.ltb_lt in T2.
+        assert (Hn : (1 <= length F)%nat) by lia.
+        destruct (pad_extend zero F st2 sample IF Hn B2 Htop T1 (PFL Hn)) as [G1 (m & M1 & M2)].
+        split; [exact G1|]. split; [reflexivity|]. exists m. cbn [set_pos recs] in *. auto.
+      * destruct (pad_new zero F st2 sample IF B2 Htop S0 CD0) as [G1 (m & M1 & M2)].
+        split; [exact G1|]. split; [reflexivity|]. exists m. cbn [set_pos recs] in *. auto.
+    + (* sample 0 on an empty file *)
+      assert (S00 : sample = 0) by lia.
+      assert (N0 : length F = 0%nat).
+      { destruct (Nat.eq_dec (length F) 0) as [L|L]; auto. exfalso.
+        pose proof (lo_succ_pos F (length F - 1) IF ltac:(lia)) as P. replace (S (length F - 1)) with (length F) in P by lia. lia. }
+      split; [|split; [reflexivity|exists 0%nat; cbn [set_pos recs repeat]; rewrite A2, app_nil_r; auto]].
+      unfold gstate, set_pos. cbn [recs cr fpos cd cs cp have_l bof cl]. rewrite A2. split; [exact IF|]. left.
+      rewrite N0 in *. cbn [lo] in *. destruct F; [|discriminate]. repeat split; auto; lia.
+Qed.
+
+(* ================================================================ part 8: gd_putdata, and histories *)
+Definition sie_inv (zero : sample) (st : sie) : Prop :=
+  (exists F, st = sie_open zero F /\ inc (-1) F) \/ after_write st.
+
+Lemma sie_seek_unfold zero sample st :
+  sie_seek zero true sample st =
+  if (filepos st =? sample) && (0 <=? cp st) then st
+  else seek_body zero sample
+         (if sample <? cp st then mkSie (recs st) 0 (-1) (-1) (-1) (-1, snd (cd st)) (cl st) false true (filepos st) else st).
+Proof. reflexivity. Qed.
+
+Theorem seek_ok zero sample st :
+  sie_inv zero st -> 0 <= sample -> seek_goal zero sample st (sie_seek zero true sample st).
+Proof.
+  intros [(F0 & OP & IF0)|(IF & j & AT & Pcp & Pfp & Phl & Pb)] Hs; rewrite sie_seek_unfold.
+  - subst st. cbn [sie_open filepos cp recs cd cl].
+    replace (0 <=? -1) with false by reflexivity. rewrite andb_false_r.
+    replace (sample <? -1) with false by (symmetry; apply Z.ltb_ge; lia).
+    apply (seek_from zero sample F0 0%nat); cbn [cs cd fst]; auto; try lia.
+    + repeat split; cbn [sie_open recs fpos cr cs lo]; auto; try lia.
+    + cbn. lia.
+    + intros K. split; [intros; lia | reflexivity].
+  - set (F := recs st) in *. pose proof AT as (A & Br & Bf & Lt & Cd0 & Cs0).
+    pose proof (endof_nonneg F j IF Lt) as E0. pose proof (lo_le_end F j IF Lt) as LE.
+    destruct (Z.eq_dec sample (cp st)) as [Q|Q].
+    + (* the pointer is already there *)
+      replace (filepos st =? sample) with true by (symmetry; apply Z.eqb_eq; lia).
+      replace (0 <=? cp st) with true by (symmetry; apply Z.leb_le; lia). cbn [andb].
+      split; [|split; [lia | exists 0%nat; rewrite app_nil_r; auto]].
+      split; [exact IF|]. right. exists j. fold F. split; [exact AT|]. split; [lia|]. split; [|split].
+      * rewrite Phl. discriminate.
+      * intros X. lia.
+      * intros Hb _. auto.
+    + replace (filepos st =? sample) with false by (symmetry; apply Z.eqb_neq; lia). cbn [andb].
+      destruct (Z.ltb_spec sample (cp st)) as [LTs|GEs].
+      * (* backwards: rewind *)
+        apply (seek_from zero sample F 0%nat); auto; cbn [cs]; try lia.
+        repeat split; cbn [recs fpos cr cs lo]; auto; try lia.
+      * apply (seek_from zero sample F (S j)); auto; try lia.
+        -- now apply at_rec_before.
+        -- intros K. split; [|intros; lia]. intros _. split.
+           ++ rewrite Phl. discriminate.
+           ++ intros Hb _. specialize (Pb Hb). lia.
+Qed.
+
+Theorem put_ok zero p data st :
+  sie_inv zero st -> 0 <= p ->
+  exists st', sie_put zero p data st = Some st' /\ sie_inv zero st' /\
+    sie_abs st' = array_write zero (sie_abs st) (Z.to_nat p) data.
+Proof.
+  intros I Hp. unfold sie_put. destruct data as [|d0 r] eqn:DD.
+  - exists st. repeat split; auto.
+  - rewrite <- DD. assert (Hd : data <> []) by (rewrite DD; discriminate).
+    destruct (seek_ok zero p st I Hp) as (G & Cp & m & M1 & M2).
+    destruct (write_ok zero data _ G Hd) as (st' & W & AW & X).
+    exists st'. split; [exact W|]. split; [right; exact AW|].
+    unfold sie_abs. rewrite X, Cp, M1. destruct M2 as [->|M2].
+    + cbn [repeat]. now rewrite app_nil_r.
+    + apply array_write_pad; auto.
+Qed.
+
+Lemma sie_inv_increasing zero st : sie_inv zero st -> inc (-1) (recs st).
+Proof. intros [(F & -> & I)|[I _]]; exact I. Qed.
+
+(* all histories of gd_putdata calls, with the field closed and reopened at will *)
+Inductive sie_op := SPut (p : Z) (d : list sample) | SReopen.
+
+Definition sie_op_step (zero : sample) (oh : option sie) (o : sie_op) : option sie :=
+  match oh, o with
+  | Some h, SPut p d => sie_put zero p d h
+  | Some h, SReopen => Some (sie_reopen zero h)
+  | None, _ => None
+  end.
+
+Definition sie_spec_step (zero : sample) (a : list sample) (o : sie_op) : list sample :=
+  match o with SPut p d => array_write zero a (Z.to_nat p) d | SReopen => a end.
+
+Definition op_ok (o : sie_op) : Prop := match o with SPut p _ => 0 <= p | SReopen => True end.
+
+Theorem sie_histories zero (ops : list sie_op) : forall st,
+  sie_inv zero st -> Forall op_ok ops ->
+  exists h, fold_left (sie_op_step zero) ops (Some st) = Some h /\ sie_inv zero h /\
+    sie_abs h = fold_left (sie_spec_step zero) ops (sie_abs st).
+Proof.
+  induction ops as [|o r IH]; intros st I F.
+  - exists st. repeat split; auto.
+  - inversion F as [|? ? Ho Fr]; subst. cbn [fold_left].
+    destruct o as [p d|]; cbn [sie_op_step sie_spec_step op_ok] in *.
+    + destruct (put_ok zero p d st I Ho) as (st' & P & I' & A). rewrite P.
+      destruct (IH st' I' Fr) as (h & Hh1 & Hh2 & Hh3). exists h. repeat split; auto.
+      rewrite Hh3, A. reflexivity.
+    + assert (I' : sie_inv zero (sie_reopen zero st)).
+      { left. exists (recs st). split; [reflexivity | eapply sie_inv_increasing; eauto]. }
+      destruct (IH _ I' Fr) as (h & Hh1 & Hh2 & Hh3). exists h. repeat split; auto.
+Qed.
+
+Lemma sie_run_as_ops zero hist :
+  sie_run zero hist = fold_left (sie_op_step zero) (map (fun w => SPut (fst w) (snd w)) hist) (Some (sie_open zero [])).
+Proof.
+  unfold sie_run. generalize (Some (sie_open zero [])). induction hist as [|w r IH]; intros o; [reflexivity|].
+  cbn [fold_left map]. rewrite IH. destruct o; reflexivity.
+Qed.
+
+Theorem sie_refines zero hist : Forall (fun w => 0 <= fst w) hist ->
+  exists h, sie_run zero hist = Some h /\ sie_abs h = spec_of zero hist /\ ends_increasing (-1) (recs h).
+Proof.
+  intros F.
+  assert (I0 : sie_inv zero (sie_open zero [])) by (left; exists []; split; [reflexivity | exact Logic.I]).
+  assert (F' : Forall op_ok (map (fun w => SPut (fst w) (snd w)) hist)).
+  { apply Forall_forall. intros o Ho. apply in_map_iff in Ho as (w & <- & Hw). rewrite Forall_forall in F. now apply F. }
+  destruct (sie_histories zero _ _ I0 F') as (h & H1 & H2 & H3).
+  exists h. rewrite sie_run_as_ops. split; [exact H1|]. split; [|eapply sie_inv_increasing; eauto].
+  rewrite H3. unfold spec_of, apply_writes. cbn [sie_abs sie_open recs sie_expand sie_expand_from].
+  clear. generalize (@nil sample). induction hist as [|w r IH]; intros a; [reflexivity|].
+  cbn [map fold_left sie_spec_step fst snd]. apply IH.
 Qed.
